@@ -915,6 +915,9 @@ def c01(ctx):
     byte_search(ctx, ["find"], {"result", "panic"})
     lib_traces(ctx, "bytes", "first", "all", 1500 if ctx.quick else 12000, "bytes")
     extra = tlaps_supplement(ctx, "GenericFwdUnbounded", ("InitInv", "NextInv", "Safety"))
+    e2 = tlaps_supplement(ctx, "SwarFwdUnbounded", ("InitInv", "NextInv", "Safety"))
+    if "tlaps" in e2:
+        extra["tlaps_swar"] = e2["tlaps"]
     return C.finish(ctx, "model_checking", RULE_BYTES, extra_cov=extra)
 
 
